@@ -26,3 +26,4 @@ Proof. unfold p_get_last_picture, get_last_picture. destruct (last_picture s); r
 
 Lemma bridge_p_get_reference_picture s : p_get_reference_picture s = Ok (get_reference_picture s).
 Proof. unfold p_get_reference_picture, get_reference_picture. destruct (reference_picture s); reflexivity. Qed.
+
